@@ -73,6 +73,7 @@ TARGETS = [
     ("GearTrain", "update", "g_gear_update"),
     ("Differential", "update", "g_diff_update"),
     ("Axle", "update", "g_axle_update"),
+    ("Axle", "new", "g_axle_new"),
     ("GearTrain", "new", "g_gear_new"), ("GearTrain", "with_ratio", "g_gear_with_ratio"), ("GearTrain", "with_ratio_raw", "g_gear_with_ratio_raw"),
     ("Invert", "new", "g_invert_new"), ("Differential", "new", "g_diff_new"), ("Differential", "with_distrust", "g_diff_with_distrust"),
     # src/motion_profile.rs: the if-chains over the phase boundaries and the History impl (the three numeric accessors inlined)
@@ -158,6 +159,8 @@ def main(repo, outdir, consts):
                 em.t_default = "(ELit (VF fzero))"        # the generic impl at T = f32 (f32::default() = 0.0)
             if key.startswith("MovingAverageStream"):
                 em.vec_index = True
+            if key == "Axle" and fn == "new":
+                em.const_generics = {"N": "(EVar \"N\")"}
             if key == "GearTrain" and fn == "new":
                 em.const_generics = {"N": "(ELen (EVar \"teeth\"))"}; em.vec_index = True
             if key == "PIDWrapper":
